@@ -24,7 +24,9 @@ from ..match import _encv
 from ..match import canon
 
 BUILTINS = ["event_data", "machine", "event", "model", "transition", "state", "source", "target"]
-USER = ["x", "y", "z", "tok"]
+# ordinary user keyword names; the last five are also field names of the library's own event records
+# (TriggerData / EventData), which gives them no special status
+USER = ["x", "y", "z", "tok", "result", "executed", "is_initial", "trigger_data", "kwargs"]
 FREE = ["a", "b", "c", "d"]
 
 
@@ -343,7 +345,7 @@ class C07(Campaign):
             args = [f"p{uniq[0]}_{i}" for i in range(n_pos)]
             kw = {}
             for nm in USER:
-                if rnd.random() < 0.5:
+                if rnd.random() < (0.5 if nm in USER[:4] else 0.25):
                     kw[nm] = f"k{uniq[0]}_{nm}"
                     if rnd.random() < 0.25:
                         kw[nm] = rnd.choice([None, 0, "", False, []])
